@@ -310,8 +310,7 @@ def equals(a, b):
         fa, fb = a.visible_fields(), b.visible_fields()
         if fa != fb:
             return False
-        a.check_asserts()
-        b.check_asserts()
+        # (object asserts run on field access, so objects without visible fields are never checked here)
         for n in fa:
             if not equals(a.get(n), b.get(n)):
                 return False
